@@ -121,7 +121,7 @@ type run struct {
 	acked                       []map[int64]int64 // per overwriting writer: ts -> latest acknowledged version (online diagnostics)
 	panics                      atomic.Int64
 	logbuf                      *safeBuf
-	closedAt                    atomic.Int64
+	closedAt, closeDone         atomic.Int64
 }
 
 func (r *run) tick() int64 { return r.clock.Add(1) }
@@ -423,6 +423,7 @@ func runWorkload(t *rapid.T, w workload) *run {
 				time.Sleep(time.Duration(300+ys[0]*40) * time.Millisecond)
 				r.closedAt.Store(r.tick())
 				_ = r.f.Store.Close()
+				r.closeDone.Store(r.tick())
 			})
 		}()
 	}
@@ -771,6 +772,13 @@ func (r *run) verify() {
 		if closed != 0 && o.resp > closed {
 			// a read that overlaps or follows the close and did not fail: results are still checked
 			rec.Class("read:succeeded-around-close")
+			if cd := r.closeDone.Load(); o.ql && len(o.got) == 0 && (cd == 0 || o.inv < cd) && ev.KnownOpen("C39", emptyAtCloseKey) {
+				// open known finding, exact signature: an InfluxQL iterator created while Store.Close is
+				// running reports success and no points
+				rec.ExcludedKnown(emptyAtCloseKey)
+				rec.Class("read:influxql-empty-while-closing(known)")
+				continue
+			}
 		}
 		if o.series == deleterSeries {
 			if o.resp >= firstTaint && ev.KnownOpen("C39", windowKey) {
@@ -896,7 +904,7 @@ func TestPropConcurrentWorkload(t *testing.T) {
 	rec.Assume("interleavings are sampled (one execution per generated workload), not enumerated; a schedule-dependent failure is reported with the recorded history and may not reproduce")
 	rec.Assume("the writer-deleter uses unique timestamps so that a delete applied file by file cannot legitimately expose an older version")
 	rec.Assume("a timestamp deleted by a delete that overlaps an in-progress cache snapshot may stay readable while known finding delete-during-snapshot-window is open (counted under excluded_known)")
-	rec.Check(t, 8, 80, func(t *rapid.T) {
+	rec.Check(t, 6, 80, func(t *rapid.T) {
 		w := workload{
 			Writers: rapid.IntRange(1, 3).Draw(t, "writers"), Readers: rapid.IntRange(1, 3).Draw(t, "readers"),
 			WriterOps: rapid.IntRange(30, 120).Draw(t, "writerOps"), Batch: rapid.IntRange(1, 12).Draw(t, "batch"),
@@ -1175,6 +1183,8 @@ func base(paths []string) []string {
 	return out
 }
 
+const emptyAtCloseKey = "influxql-read-during-close-returns-empty"
+
 const staleSetKey = "stale-series-id-set-cached-during-series-creation"
 
 // tsi1.Index.TagValueSeriesIDIterator reads the series id set of a tag value from the partitions
@@ -1224,4 +1234,57 @@ func TestKnown_stale_series_id_set_cached_during_series_creation(t *testing.T) {
 		}
 	}
 	rec.Known(t, "TestKnown_stale_series_id_set_cached_during_series_creation", staleSetKey, reproduced, detail, nil)
+}
+
+// An InfluxQL iterator created while Store.Close() is running can report success with no
+// points although the series holds acknowledged points: the engine finds the measurement
+// missing in the index that is being closed (Index.MeasurementExists on closed partitions) and
+// returns no iterators instead of an error. No serial order of the read and the close gives an
+// empty success (before the close the points are there, after it the read fails with "engine is
+// closed"). Reproducer: readers loop on SELECT while the store is closed.
+func TestKnown_influxql_read_during_close_returns_empty(t *testing.T) {
+	reproduced := false
+	var detail string
+	for round := 0; round < 40 && !reproduced; round++ {
+		dir, err := scratch.Dir("c39-")
+		if err != nil {
+			t.Fatal(err)
+		}
+		f := &fix.ShardFix{Root: dir, Background: true}
+		if err := f.Open(); err != nil {
+			t.Fatal(err)
+		}
+		s := writerSeries(0)
+		if err := f.Store.WriteToShard(context.Background(), fix.ShardID, []models.Point{point(s, 10, 1)}); err != nil {
+			t.Fatal(err)
+		}
+		var wg sync.WaitGroup
+		var stop atomic.Bool
+		var empty atomic.Int64
+		for r := 0; r < 4; r++ {
+			wg.Add(1)
+			go func() {
+				defer wg.Done()
+				for !stop.Load() {
+					got, err := f.ReadInfluxQL(s, "fi", model.Integer, -1000, 1000, true)
+					if err == nil && len(got) == 0 {
+						empty.Add(1)
+					}
+					if err != nil {
+						return
+					}
+				}
+			}()
+		}
+		time.Sleep(time.Duration(round%5) * time.Millisecond)
+		_ = f.Store.Close()
+		stop.Store(true)
+		wg.Wait()
+		if n := empty.Load(); n > 0 {
+			reproduced = true
+			detail = fmt.Sprintf("round %d: %s holds 1 acknowledged point; while Store.Close() ran, %d SELECTs of it returned success with 0 points (before the close they return the point, after it an error)", round, s, n)
+		}
+		os.RemoveAll(dir)
+	}
+	rec.Known(t, "TestKnown_influxql_read_during_close_returns_empty", emptyAtCloseKey, reproduced, detail, nil)
 }
